@@ -116,6 +116,9 @@ func cmdFunc(args []string) {
 		}
 	}
 	if bad > 0 {
+		if *keep == "" {
+			os.RemoveAll(dir)
+		}
 		os.Exit(1)
 	}
 }
